@@ -49,7 +49,11 @@ class MyLinear(nn.Linear):
 def build(spec, dtype):
     k = spec["k"]
     if k == "seq":
-        return nn.Sequential(*[build(c, dtype) for c in spec["c"]])
+        mods = []
+        for c in spec["c"]:
+            # {"k": "ref", "to": i}: the same module instance as child i (weight tying)
+            mods.append(mods[c["to"]] if c["k"] == "ref" else build(c, dtype))
+        return nn.Sequential(*mods)
     if k == "chain":
         return Chain([build(c, dtype) for c in spec["c"]])
     if k == "res":
@@ -146,7 +150,8 @@ def walk_leaves(spec, prefix=""):
     out = []
     if k == "seq":
         for i, c in enumerate(spec["c"]):
-            out += walk_leaves(c, f"{prefix}{i}.")
+            if c["k"] != "ref":
+                out += walk_leaves(c, f"{prefix}{i}.")
     elif k == "chain":
         for i, c in enumerate(spec["c"]):
             out += walk_leaves(c, f"{prefix}blocks.b{i}.")
